@@ -346,6 +346,7 @@ NOTS = z3.Function('map_not', VS, VS)          # elementwise operator.not_
 MAPF = z3.Function('map_cond', VS, VS)         # elementwise application of the (possibly stateful) callable:
 #                                                map_cond(X)[i] = result of its i-th evaluation, on X[i]
 bool_val = z3.Function('bool_val', B, ValS)
+NONE_VAL = z3.Const('the_None_object', ValS)
 
 
 def unfold(fn, X, C, n, pred):
@@ -402,12 +403,22 @@ def t_split(E):
         fobj, it = a[0], a[1]
         den = consume(E, it, 'map')
         if fobj is st.get('not_'):
-            return mk_iter(NOTS(den))
+            return pointwise(E, den, NOTS(den), lambda c: z3.Not(truthy(c)),
+                             'stub: operator.not_ maps a value to the negation of its truthiness')
         if fobj is st.get('cond_callable'):
             st['cond_maps'] = st.get('cond_maps', 0) + 1
             st['cond_map_src'] = den
             return mk_iter(MAPF(den))
         raise Unsupported('map of %r' % (fobj,))
+
+    def pointwise(E, den, out, truth_of, note):
+        """an iterator over `den` mapped element by element (lazily, once per pull, in order): denotation `out`
+        of the same length whose j-th element is truthy exactly when truth_of(den[j])"""
+        j = z3.Int('j!map')
+        E.assume(z3.Length(out) == z3.Length(den))
+        E.assume(z3.ForAll([j], z3.Implies(z3.And(j >= 0, j < z3.Length(den)), truthy(out[j]) == truth_of(den[j]))))
+        E.used(note)
+        return mk_iter(out)
 
     def _compress(E, a, k):
         """itertools.compress(d, s): consumes both; denotes [d_i | i < min(|d|,|s|), truthy(s_i)]; lazy."""
@@ -415,7 +426,45 @@ def t_split(E):
         s = consume(E, a[1], 'compress.selectors')
         n = zmin(z3.Length(d), z3.Length(s))
         E.assume(unfold(SEL, d, s, n, truthy))
-        return mk_iter(SEL(d, s, n))
+        r = mk_iter(SEL(d, s, n))
+        r.fields['compress_of'] = (d, s)
+        return r
+
+    def _genexp(E_, e, fr, kind, src):
+        """(expr(c) for c in <iterator>): lazy element-by-element map; expr is evaluated on a symbolic element"""
+        if kind != 'gen' or not (isinstance(src, Obj) and src.cls == 'Iter'):
+            raise Unsupported('comprehension over %r' % (src,), e)
+        g = e.generators[0]
+        den = consume(E, src, 'generator expression')
+        c0 = z3.Const('c!elem', ValS)
+        f2 = Frame(fr.func, fr.module, fr, fr.qualname)
+        E.assign(g.target, VVal(c0), f2)
+        v = E.eval(e.elt, f2)
+        if isinstance(v, VVal) and z3.eq(v.t, c0):
+            return mk_iter(den)
+        if isinstance(v, VBool):
+            t = v.t
+            out = E.fresh('mapped', VS)
+            return pointwise(E, den, out, lambda c: z3.substitute(t, (c0, c)),
+                             'a generator expression maps its source element by element, lazily')
+        t = E.truth(v)
+        if isinstance(t, bool):
+            t = z3.BoolVal(t)
+        out = E.fresh('mapped', VS)
+        return pointwise(E, den, out, lambda c: z3.substitute(t, (c0, c)),
+                         'a generator expression maps its source element by element, lazily')
+
+    def _identical(E_, a, b):
+        """`c is False` / `c is True` / `c is None` on an opaque element: identity with the singleton"""
+        for x, y in ((a, b), (b, a)):
+            if isinstance(x, VVal) and x.t.sort() == ValS and isinstance(y, (VBool, VNone)):
+                if isinstance(y, VNone):
+                    return x.t == NONE_VAL
+                c = y.concrete()
+                if c is None:
+                    return None
+                return x.t == bool_val(z3.BoolVal(c))
+        return None
 
     def _eager(name):
         def fn_(E, a, k):
@@ -432,6 +481,12 @@ def t_split(E):
         E.builtins[('import', 'itertools:compress')] = VStub('itertools.compress', _compress)
         E.builtins[('import', 'collections:deque')] = _eager('deque')
         E.builtins['map'] = VStub('map', _map)
+        E.builtins['__comprehension__'] = _genexp
+        E.builtins['__identical__'] = _identical
+        # the singletons among the opaque values: True is truthy, False and None are falsy
+        E.assume(z3.And(truthy(bool_val(z3.BoolVal(True))), z3.Not(truthy(bool_val(z3.BoolVal(False)))),
+                        z3.Not(truthy(NONE_VAL)), bool_val(z3.BoolVal(True)) != bool_val(z3.BoolVal(False)),
+                        NONE_VAL != bool_val(z3.BoolVal(False)), NONE_VAL != bool_val(z3.BoolVal(True))))
         E.builtins['list'] = _eager('list')
         E.builtins['tuple'] = _eager('tuple')
         X = E.fresh('X', VS)
@@ -462,12 +517,14 @@ def t_split(E):
         r0, r1 = res.items
         # inductive lemma (hand-instantiated): sel(X, map_not(C), k) = rej(X, C, k) for all k
         k = E.fresh('k', I)
-        Cn = NOTS(Ceff)
-        E.assume(z3.Length(Cn) == z3.Length(Ceff))
-        j = z3.Int('j!not')
-        E.assume(z3.ForAll([j], z3.Implies(z3.And(j >= 0, j < z3.Length(Ceff)),
-                                           truthy(Cn[j]) == z3.Not(truthy(Ceff[j])))))
-        E.used('stub: operator.not_ maps a value to the negation of its truthiness')
+        # the selectors of the second stream, as the code built them (map(not_, c2), a generator expression, ...):
+        # the lemma is about THEM, whatever they are
+        co = r1.fields.get('compress_of')
+        E.oblige(f.qualname + '/ensures.second_is_a_lazy_selection_of_the_source', z3.BoolVal(
+            co is not None and z3.eq(co[0], X)), detail='compress(<copy of the source>, <selectors>)')
+        if co is None or not z3.eq(co[0], X):
+            return
+        Cn = co[1]
         falsy = lambda c: z3.Not(truthy(c))   # noqa: E731
         E.oblige(f.qualname + '/lemma.rej_is_sel_of_negation.base',
                  z3.Implies(z3.And(unfold(SEL, X, Cn, z3.IntVal(0), truthy), unfold(REJ, X, Ceff, z3.IntVal(0), falsy)),
